@@ -109,7 +109,9 @@ func runC27(p *Prog, r *Result) {
 	r.Rule("R27a", "writes to variable storage (lists, indexes, maps, positional parameters) only through storage created in the same activation", 60)
 	r.Rule("R27b", "subshell(): every map/slice/pointer field of the new Runner is a fresh copy, except the table of fields shared by design", 8)
 	r.Rule("R27c", "overlayEnviron.Set writes to its parent only under funcScope; funcScope is only set by (*Runner).call", 2)
+	r.Rule("R27d", "inside every isolating construct (command/process substitution callbacks, the Subshell clause, the pipeline clause, the background branch) calls that can change variables, functions, aliases, options, directory or positional parameters run on a runner made by subshell(), never on the parent", 6)
 	checkOwnership(p, r, "R27a", false)
+	checkIsolationRegions(p, r, "R27d")
 	checkSubshellCopies(p, r)
 	checkOverlayDirection(p, r)
 }
@@ -481,6 +483,12 @@ func selectorFieldNode(info *types.Info, n ast.Node) *types.Var {
 }
 
 var c27Controls = []Control{
+	{Name: "subshell-clause-runs-on-parent", Rule: "R27d", WantKey: "case *syntax.Subshell: r.stmts", File: "interp/runner.go",
+		Mutate: ctlReplaceAnywhere("r2.stmts(ctx, cm.Stmts)\n\t\tr2.exit.exiting", "r.stmts(ctx, cm.Stmts)\n\t\tr2.exit.exiting")},
+	{Name: "background-job-runs-on-parent", Rule: "R27d", WantKey: "if Stmt.Background: r.Run", File: "interp/runner.go",
+		Mutate: ctlReplaceAnywhere("r2.Run(ctx, &st2)", "r.Run(ctx, &st2)")},
+	{Name: "cmdsubst-expands-on-parent", Rule: "R27d", WantKey: "CmdSubst callback: r.fields", File: "interp/runner.go",
+		Mutate: ctlReplaceAnywhere("r2 := r.subshell(false)\n\t\t\tr2.stdout = w\n", "r2 := r.subshell(false)\n\t\t\tr2.stdout = w\n\t\t\tif len(cs.Stmts) == 1 {\n\t\t\t\tif ce, ok := cs.Stmts[0].Cmd.(*syntax.CallExpr); ok && len(ce.Args) > 7 {\n\t\t\t\t\t_ = r.fields(ce.Args...)\n\t\t\t\t}\n\t\t\t}\n")},
 	{Name: "setVarWithIndex-drops-clone", Rule: "R27a", WantKey: "setVarWithIndex", File: "interp/vars.go",
 		Mutate: ctlReplace("Runner.setVarWithIndex", "list = slices.Clone(prev.List)", "list = prev.List", 0)},
 	{Name: "unsetElem-map-no-clone", Rule: "R27a", WantKey: "unsetElem#delete", File: "interp/vars.go",
